@@ -316,6 +316,7 @@ def replay(path):
 
 
 CMP_KEYS = ["lst", "content", "err", "values", "get", "get_group", "contains"]
+REF_STEPS = [0]   # states compared with the reference model (per process)
 
 
 def compare(h, model, verdict):
@@ -332,6 +333,19 @@ def compare(h, model, verdict):
             fails.append({"kind": "property", "what": "operation effect differs from reference model",
                           "step": i, "keys": diff, "impl": {k: a[k] for k in diff}, "model": {k: b[k] for k in diff}})
             break
+    # refinement (`C13_refinement_run`): along the valid, refinable prefix of a history started from a well-formed object,
+    # the implementation's state read in list order equals the state of the plain reference model `RefGL`
+    if not fails and model["steps"] and model["steps"][0].get("wf"):
+        for i, (a, b) in enumerate(zip(h["snaps"], model["steps"])):
+            if i > 0 and not (b["valid"] and b["refinable"]):
+                break
+            cont = {json.dumps(k): vs for k, vs in a["content"]}
+            impl_abs = [[k, cont.get(json.dumps(k))] for k in a["lst"]]
+            if impl_abs != b["ref"]:
+                fails.append({"kind": "property", "what": "operation effect differs from the plain reference model (leader -> members in list order)",
+                              "step": i, "impl": impl_abs, "reference": b["ref"]})
+                break
+            REF_STEPS[0] += 1
     if verdict is not None and not verdict["ok"]:
         bad = None
         if not verdict["ctor_ok"]:
@@ -363,7 +377,8 @@ def process(histories, univ, drv):
         jreqs.append(r)
     verdicts = dict(zip(idx, drv.batch(jreqs)))
     out = []
-    stats = {"histories": len(histories), "steps": 0, "errors": {}, "valid_histories": 0, "ops": {}}
+    stats = {"histories": len(histories), "steps": 0, "errors": {}, "valid_histories": 0, "ops": {}, "reference_states_compared": 0}
+    REF_STEPS[0] = 0
     for i, (h, m) in enumerate(zip(histories, models)):
         fails = compare(h, m, verdicts.get(i))
         stats["steps"] += len(h["ops"])
@@ -381,6 +396,7 @@ def process(histories, univ, drv):
             f["case"] = {"ctor": ctor_wire(h["ctor"]), "ops": [op_wire(o) for o in h["ops"]], "univ": wu,
                          "py": {"ctor": repr(h["ctor"]), "ops": repr(h["ops"])}}
             out.append(f)
+    stats["reference_states_compared"] = REF_STEPS[0]
     return out, stats
 
 
@@ -456,14 +472,14 @@ def main(tier, seed):
         tasks.append(("random", (n_random // chunks, maxlen), seed * 1000003 + i))
     # corpus first
     failures, nfail = [], 0
-    stats = {"histories": 0, "steps": 0, "errors": {}, "valid_histories": 0, "ops": {}}
+    stats = {"histories": 0, "steps": 0, "errors": {}, "valid_histories": 0, "ops": {}, "reference_states_compared": 0}
     samples, distinct = [], 0
     with mp.Pool(min(16, os.cpu_count() or 4)) as pool:
         for fails, n, st, sample, nd in pool.imap_unordered(worker, tasks):
             failures += fails; nfail += n
             distinct += nd
-            for k in ("histories", "steps", "valid_histories"):
-                stats[k] += st[k]
+            for k in ("histories", "steps", "valid_histories", "reference_states_compared"):
+                stats[k] += st.get(k, 0)
             for k in ("errors", "ops"):
                 for a, b in st[k].items():
                     stats[k][a] = stats[k].get(a, 0) + b
@@ -481,6 +497,7 @@ def main(tier, seed):
         "samples": samples,
         "steps_compared": stats["steps"],
         "histories_valid_throughout": stats["valid_histories"],
+        "states_compared_with_reference_model": stats["reference_states_compared"],
         "operation_histogram": stats["ops"],
         "exception_histogram": stats["errors"],
         "failures_total": nfail,
